@@ -2,7 +2,9 @@
 # run every registered check once (quick tier by default) and summarise
 cd "$(dirname "$0")/.."
 tier=${1:-quick}
-for id in C01 C02 C03 C04 C05 C06 C07 C08 C09 C10 C11 C12 C13 C14 C15 C16 C17 C18 C19 C20; do
+shift
+ids=${@:-C01 C02 C03 C04 C05 C06 C07 C08 C09 C10 C11 C12 C13 C14 C15 C16 C17 C18 C19 C20}
+for id in $ids; do
   s=$(date +%s)
   ./check $id --tier $tier > work/run-$id.out 2>&1; rc=$?
   e=$(date +%s)
